@@ -124,6 +124,29 @@ T["C15"] = dict(
 
 PLANNED = {}
 
+# what later rounds added to the checks (DESIGN.md 11.4): appended to the level texts
+ADD = {
+ "C01": "Catalogue engines with rule weights within the library's comparison tolerance of 1 and 0, a missing input under connectives and under several conclusions, every activation method on a block whose rules read the output they conclude on.",
+ "C02": "Histories that mix rows with a missing (NaN) input and complete rows; one batch of 2600 / 4100 rows against the same rows one at a time.",
+ "C03": "Third palette 'narrow' (parameters 0, 1/1024, 1; height 1023/1024: inside the comparison tolerance of a degenerate value; TLC emits piece and symbolic closed form, the harness evaluates it in exact rationals); Discrete tables of 96 and 70 pairs with vertical edges; numpy.matrix and 4100-element arguments.",
+ "C04": "One scalar (float / numpy scalar / 0-d) against a vector in both orders; vectors of 4100 elements; numpy.matrix operands.",
+ "C05": "numpy.matrix and 4100-element arguments among the argument forms.",
+ "C06": "A user-supplied non-associative operator (Norms.tla 'Mean', NormLambda in the code) as conjunction / disjunction, through which the grouping prescribed by the grammar is visible.",
+ "C07": "Fuzzy outputs emptied by clear(), by a new list and by a new Aggregated object in turn.",
+ "C08": "Blocks of 20 (thorough 34) rules with many equal degrees and degrees within the comparison tolerance of the threshold (MC_Activations BigK).",
+ "C09": "Fuzzy sets with mixed implications, one term activated twice through every ordered pair of implications, UnboundedSum sets (memberships above 1).",
+ "C10": "Activation lists of 17-130 entries through the exact mirror.",
+ "C11": "Gentle slopes and edges narrower than the comparison tolerance in both palettes; a term of another kind either refuses or, if it declares itself monotonic, owes the inverse relation.",
+ "C12": "A palette whose values lie within the comparison tolerance of the range bounds.",
+ "C14": "Heights / weights that are not 1 but inside the tolerance of 1; formulas naming any variable of the engine (also ones declared later), compared term by term after import; open-ended Discrete tables; wide engines.",
+ "C15": "Function terms with 5-12 own variables, open-ended Discrete tables, wide engines (every list longer than a printer's size limit).",
+ "C16": "RuleLifecycle has a vocabulary: a variable renamed or replaced under loaded rules, texts that are good in one vocabulary only.",
+ "C18": "FldGrid table mode: an engine with a locked output exported over 1331-3072 rows, fresh and after earlier use (HoldsAcrossRows; canaries RestartEvery, SkipFirstRestart).",
+ "C19": "Base engines whose only and / or occurs in a right branch or two levels down.",
+}
+for _p, _t in ADD.items():
+    T[_p]["text"] = T[_p]["text"].rstrip() + " Added later: " + _t
+
 def main():
     props = [json.loads(l) for l in open(os.path.join(V, "properties.jsonl"))]
     checks, na = [], []
